@@ -71,6 +71,26 @@ def rule_ring_marks(ck, repo, R):
     ring = {src(s.targets[0]): src(s.value) for s in top if src(s.targets[0]) in ('atom._in_ring', 'atom._ring_sizes')}
     ck.decide(ring == {'atom._in_ring': 'n in atoms_rings_sizes', 'atom._ring_sizes': 'atoms_rings_sizes.get(n) or set()'}, R, 'ring-mark-derivation', ring,
               f'atom ring marks are computed as {ring}', file=f.file, line=f.lineno)
+    # neighbour classification is a partition: hydrogen -> explicit_hydrogens, carbon -> neither, anything else -> heteroatoms
+    from .astutil import if_chain
+    part = None
+    for n in ast.walk(inner[0]):
+        if isinstance(n, ast.If):
+            ch = if_chain(n)
+            incs = []
+            for t, blk in ch:
+                for st in blk:
+                    if isinstance(st, ast.AugAssign) and src(st.target) in ('explicit_hydrogens', 'heteroatoms') and src(st.value) == '1':
+                        incs.append((src(t) if t is not None else 'else', src(st.target)))
+            if {x[1] for x in incs} == {'explicit_hydrogens', 'heteroatoms'}:
+                part = incs
+    sep = [src(st.target) for n in ast.walk(inner[0]) if isinstance(n, ast.If) for st in n.body if isinstance(st, ast.AugAssign) and src(st.target) in ('explicit_hydrogens', 'heteroatoms')]
+    if part is None and len(sep) < 2:
+        raise AnalysisError('calc_labels: explicit_hydrogens / heteroatoms counting not recognised')
+    ok = part is not None and len(part) == 2 and part[0][1] == 'explicit_hydrogens' and part[0][0].endswith('== H') and part[1][1] == 'heteroatoms' and part[1][0].endswith('!= C')
+    ck.decide(ok, R, 'neighbour-partition', part or sep,
+              f'calc_labels classifies a neighbour as {part or sep}: explicit hydrogens and heteroatoms must be the two exclusive branches of one chain '
+              f'(hydrogen counts as explicit hydrogen only; heteroatoms = neither H nor C)', file=f.file, line=inner[0].lineno, func=f.qualname)
     # coordinate bonds do not count as neighbours
     cont = [n for n in ast.walk(inner[0]) if isinstance(n, ast.If) and src(n.test) == 'bond == 8' and any(isinstance(x, ast.Continue) for x in n.body)]
     ck.decide(len(cont) == 1, R, 'coordinate-bonds-skipped', None, 'calc_labels no longer skips coordinate bonds when counting neighbours / hybridisation', file=f.file, line=inner[0].lineno)
@@ -137,3 +157,40 @@ def rule_heavy_atoms(ck, repo, R, P):
     exp = repo.func('chython.algorithms.standardize.molecule:Standardize.explicify_hydrogens')
     news = [src(n.value) for n in ast.walk(exp.node) if isinstance(n, ast.Assign) and isinstance(n.targets[0], ast.Subscript) and src(n.targets[0].value) == 'atoms']
     ck.decide(news == ['_H(implicit_hydrogens=0)'], R, 'explicify:only-hydrogens', news, f'explicify_hydrogens adds atoms {news}', file=exp.file, line=exp.lineno)
+
+
+def rule_tautomer_donor_guard(ck, repo, R):
+    ck.rule(R, 'thiele ring-tautomer fix moves one hydrogen (donor count := 0, acceptor count := 1): an atom may only enter the donor list under a guard that '
+               'establishes it carries that hydrogen (six-membered ring nitrogen with exactly two bonds, or an explicit hydrogen-count test); acceptors are '
+               'neutral ring nitrogens of odd rings')
+    th = repo.func('chython.algorithms.aromatics.thiele:Thiele.thiele')
+    parents = {}
+    for p in ast.walk(th.node):
+        for c in ast.iter_child_nodes(p):
+            parents[c] = p
+    adds = [n for n in ast.walk(th.node) if isinstance(n, ast.Call) and src(n.func) == 'donors.append']
+    if len(adds) != 1:
+        raise AnalysisError(f'thiele: expected one donors.append site, found {len(adds)}')
+    from .astutil import conjuncts
+    guards = []
+    child, p = adds[0], parents.get(adds[0])
+    while p is not None and not isinstance(p, ast.For):
+        if isinstance(p, ast.If) and child in p.body:
+            guards += [src(c) for c in conjuncts(p.test)]
+        child, p = p, parents.get(p)
+    two_bonds = any(g in ('b == 2', 'len(bonds[n]) == 2') for g in guards)
+    has_h = any('implicit_hydrogens' in g for g in guards)
+    ck.decide(two_bonds or has_h, R, 'donor-has-hydrogen', guards,
+              f'thiele adds a ring nitrogen to the tautomer donors under {guards}: nothing establishes that it carries the hydrogen that the fix removes '
+              f'(a three-bonded N would lose a hydrogen it does not have and the acceptor would gain one: formula changes)', file=th.file, line=adds[0].lineno, func=th.qualname)
+    if two_bonds and 'b == 2' in guards:
+        bdef = [n for n in ast.walk(th.node) if isinstance(n, ast.NamedExpr) and src(n.target) == 'b']
+        ck.decide(len(bdef) == 1 and src(bdef[0].value) == 'len(bonds[n])', R, 'donor:b-is-bond-count', src(bdef[0].value) if bdef else None,
+                  'the donor guard `b == 2` no longer tests the number of bonds of the atom', file=th.file, line=adds[0].lineno)
+    ck.decide('lr == 6' in guards and 'fix_tautomers' in guards, R, 'donor:six-ring', guards, f'donor guard is {guards}; expected a six-membered ring under fix_tautomers', file=th.file, line=adds[0].lineno)
+    acc = [n for n in ast.walk(th.node) if isinstance(n, ast.Call) and src(n.func) == 'acceptors.update']
+    ck.decide(len(acc) == 1 and '== N and (not a.charge)' in src(acc[0]) or len(acc) == 1 and '== N and not a.charge' in src(acc[0]), R, 'acceptor:neutral-N', src(acc[0])[:90] if acc else None,
+              'acceptors are no longer restricted to neutral nitrogens', file=th.file, line=th.lineno)
+    moves = sorted(src(n) for n in ast.walk(th.node) if isinstance(n, ast.Assign) and isinstance(n.targets[0], ast.Attribute) and n.targets[0].attr == '_implicit_hydrogens')
+    ck.decide(moves == ['atoms[current]._implicit_hydrogens = 1', 'atoms[start]._implicit_hydrogens = 0'], R, 'move-is-balanced', moves,
+              f'hydrogen move of the tautomer fix is {moves}: one hydrogen must leave the donor and arrive at the acceptor', file=th.file, line=th.lineno)
